@@ -262,7 +262,7 @@ def catalogue(tier):
         out = list(prims)
         out += [T.tarray(T.tfloat64), T.tarray(T.tcall), T.tset(T.tstr), T.tdict(T.tstr, T.tint32), T.tdict(T.tint32, T.tfloat64),
                 T.tstruct(a=T.tint32, b=T.tcall), T.ttuple(L, T.tbool, T.tstr), T.tinterval(T.tint32), T.tinterval(L),
-                nd[1], nd[8], d2[1], T.tstruct(a=T.tarray(T.tint64), b=T.tstruct(c=T.tbool, d=T.tint32))]
+                nd[1], nd[8], T.tarray(T.tstruct(a=T.tint32, b=T.tint64)), T.tstruct(a=T.tarray(T.tint64), b=T.tstruct(c=T.tbool, d=T.tint32))]
         return out
     out = list(prims)
     out += [T.tarray(p) for p in prims]
